@@ -765,6 +765,53 @@ def r01i(ctx):
         raise AnalysisError("R01i: no positional placement with an append fallback found")
 
 
+_WRITERS = {"set_item_in_vault", "insert_item_in_vault", "delete_item_in_vault", "set_cell", "set_row", "set_cells", "append_row", "append_cell", "append_column",
+            "set_value", "set_values", "set_row_values", "set_column", "insert_cell", "insert_row", "insert_column", "extend", "extend_cells", "extend_rows", "_append",
+            "set_row_cells", "set_column_cells", "set_value_and_type", "clear", "append_named_range", "insert_map_once", "insert", "append", "set_column_values"}
+
+
+def r01j(ctx):
+    """A write is a write, whatever is written and wherever.
+
+    In the grid model every set / insert / append changes the grid: writing None beyond the edge still extends the table, writing a value
+    equal to the old one is still a write.  A setter that returns early because "there is nothing to do" (the value is None, the position
+    lies outside, the cell looks the same) leaves size and content behind the model.  Rule: every normal path through a set_* / insert_* /
+    append_* method of Table and Row passes a call that writes (a vault function, another setter, an append) or the head of a loop over the
+    caller's items; set_span, which may refuse, is the business of C17.
+    """
+    from ..paths import cfg_of, node_of
+    repo = ctx.repo
+    ctx.rule("R01j", "every normal path of a set_/insert_/append_ method of Table and Row reaches a write (no early return on the value or the position)", floor=20)
+    for cname in ("Table", "Row"):
+        c = repo.cls(cname)
+        for name, fs in sorted(c.methods.items()):
+            if not name.startswith(("set_", "insert_", "append_")) or name in ("set_span",) or fs[0].kind in ("setter", "getter"):
+                continue
+            f = fs[0]
+            cfg = cfg_of(f)
+            ws = [node_of(cfg, x) for x in walk_no_nested(f.node) if isinstance(x, ast.Call) and call_name(x) in _WRITERS]
+            ws += [node_of(cfg, lp) for lp in walk_no_nested(f.node) if isinstance(lp, ast.For) and any(isinstance(x, ast.Call) and call_name(x) in _WRITERS for x in ast.walk(lp))]
+            ws = [w for w in ws if w is not None]
+            if not ws:
+                continue
+            byp = cfg.path_avoiding(cfg.entry, cfg.exit, ws, follow_exc=False)
+            ctx.instance("R01j", f"{f.file}:{f.ident}", "every normal path writes", ok=byp is None, nontrivial=True, line=f.node.lineno)
+            if byp is not None:
+                last = [x for x in byp if x.stmt is not None][-1].stmt
+                gs = [norm(t, 40) for t, _ in structural_guards_of(last, f)]
+                ctx.report("R01j", f, last, f"{cname}.{name} can end at `{norm(last, 40)}` without writing",
+                           f"{cname}.{name} has a normal path that writes nothing (ends at `{norm(last, 40)}` under {gs}): the grid model performs the write all the same — a value of None "
+                           f"beyond the edge still extends the table — so size and content fall behind the model and every later operation is placed against the wrong extent")
+
+
+def structural_guards_of(node, f):
+    from ..paths import structural_guards
+    try:
+        return structural_guards(node, stop=f.node)
+    except Exception:  # noqa: BLE001
+        return []
+
+
 def run(ctx):
     tom = run_tom(ctx.repo)
     r01a(ctx, tom)
@@ -775,6 +822,7 @@ def run(ctx):
     r01e(ctx)
     r01fgh(ctx)
     r01i(ctx)
+    r01j(ctx)
 
 
 from ..selftest import Seed, unparse_seed  # noqa: E402
@@ -783,6 +831,9 @@ _T = "src/odfdo/table.py"
 _R = "src/odfdo/row.py"
 _EC = "src/odfdo/element_cached.py"
 SEEDS = [
+    Seed("set_value returns early for None beyond the edge", "fault", _T,
+         "        self.set_cell(\n            coord,\n            Cell(",
+         "        x0, y0 = self._translate_cell_coordinates(coord)\n        if value is None and style is None and (y0 >= self.height or x0 >= self.width):\n            return\n        self.set_cell(\n            coord,\n            Cell(", "R01j"),
     Seed("insert_row beyond the height is an append", "fault", _T,
          "        diff = y - self.height\n        if diff < 0:\n            row_back = insert_item_in_vault(y, row, self, _xpath_row_idx, \"_tmap\")\n        elif diff == 0:\n            row_back = self.append_row(row, clone=clone)\n        else:\n            self.append_row(Row(repeated=diff), _repeated=diff, clone=False)\n            row_back = self.append_row(row, clone=clone)",
          "        if y < self.height:\n            row_back = insert_item_in_vault(y, row, self, _xpath_row_idx, \"_tmap\")\n        else:\n            row_back = self.append_row(row, clone=clone)", "R01i"),
